@@ -79,7 +79,7 @@ func (g *Gateway) Query(ctx context.Context, input *graphql.QueryInput, receiver
 				result[field.Alias] = typeNameSubscription
 			}
 		case "__schema":
-			result[field.Alias] = g.introspectSchema(introspectionSchema, field.SelectionSet)
+			result[field.Alias] = g.introspectSchema(introspectionSchema, field.SelectionSet, input.Variables)
 		case "__type":
 			// there is a name argument to look up the type: a literal or a variable
 			nameValue, err := field.Arguments.ForName("name").Value.Value(input.Variables)
@@ -103,7 +103,7 @@ func (g *Gateway) Query(ctx context.Context, input *graphql.QueryInput, receiver
 				result[field.Alias] = nil
 			} else {
 				// we found the type so introspect it
-				result[field.Alias] = g.introspectType(introspectedType, field.SelectionSet)
+				result[field.Alias] = g.introspectType(introspectedType, field.SelectionSet, input.Variables)
 			}
 		// to get this far and not be one of the above means that the field is a query field
 		default:
@@ -157,7 +157,7 @@ func (g *Gateway) Query(ctx context.Context, input *graphql.QueryInput, receiver
 	return nil
 }
 
-func (g *Gateway) introspectSchema(schema *introspection.Schema, selectionSet ast.SelectionSet) map[string]interface{} {
+func (g *Gateway) introspectSchema(schema *introspection.Schema, selectionSet ast.SelectionSet, variables map[string]interface{}) map[string]interface{} {
 	// a place to store the result
 	result := map[string]interface{}{}
 
@@ -168,22 +168,22 @@ func (g *Gateway) introspectSchema(schema *introspection.Schema, selectionSet as
 		case introspectDescription:
 			result[field.Alias] = schema.Description()
 		case "types":
-			result[field.Alias] = g.introspectTypeSlice(schema.Types(), field.SelectionSet)
+			result[field.Alias] = g.introspectTypeSlice(schema.Types(), field.SelectionSet, variables)
 		case "queryType":
-			result[field.Alias] = g.introspectType(schema.QueryType(), field.SelectionSet)
+			result[field.Alias] = g.introspectType(schema.QueryType(), field.SelectionSet, variables)
 		case "mutationType":
-			result[field.Alias] = g.introspectType(schema.MutationType(), field.SelectionSet)
+			result[field.Alias] = g.introspectType(schema.MutationType(), field.SelectionSet, variables)
 		case "subscriptionType":
-			result[field.Alias] = g.introspectType(schema.SubscriptionType(), field.SelectionSet)
+			result[field.Alias] = g.introspectType(schema.SubscriptionType(), field.SelectionSet, variables)
 		case "directives":
-			result[field.Alias] = g.introspectDirectiveSlice(schema.Directives(), field.SelectionSet)
+			result[field.Alias] = g.introspectDirectiveSlice(schema.Directives(), field.SelectionSet, variables)
 		}
 	}
 
 	return result
 }
 
-func (g *Gateway) introspectType(schemaType *introspection.Type, selectionSet ast.SelectionSet) map[string]interface{} {
+func (g *Gateway) introspectType(schemaType *introspection.Type, selectionSet ast.SelectionSet, variables map[string]interface{}) map[string]interface{} {
 	if schemaType == nil {
 		return nil
 	}
@@ -194,8 +194,13 @@ func (g *Gateway) introspectType(schemaType *introspection.Type, selectionSet as
 	for _, field := range graphql.SelectedFields(selectionSet) {
 		// the default behavior is to ignore deprecated fields
 		includeDeprecated := false
-		if passedValue := field.Arguments.ForName("includeDeprecated"); passedValue != nil && passedValue.Value.Raw == "true" {
-			includeDeprecated = true
+		if passedValue := field.Arguments.ForName("includeDeprecated"); passedValue != nil {
+			// a literal or a variable
+			if value, err := passedValue.Value.Value(variables); err == nil {
+				if include, ok := value.(bool); ok {
+					includeDeprecated = include
+				}
+			}
 		}
 
 		switch field.Name {
@@ -208,17 +213,17 @@ func (g *Gateway) introspectType(schemaType *introspection.Type, selectionSet as
 		case introspectDescription:
 			result[field.Alias] = schemaType.Description()
 		case introspectFields:
-			result[field.Alias] = g.introspectFieldSlice(schemaType.Fields(includeDeprecated), field.SelectionSet)
+			result[field.Alias] = g.introspectFieldSlice(schemaType.Fields(includeDeprecated), field.SelectionSet, variables)
 		case introspectInterfaces:
-			result[field.Alias] = g.introspectTypeSlice(schemaType.Interfaces(), field.SelectionSet)
+			result[field.Alias] = g.introspectTypeSlice(schemaType.Interfaces(), field.SelectionSet, variables)
 		case introspectPossibleTypes:
-			result[field.Alias] = g.introspectTypeSlice(schemaType.PossibleTypes(), field.SelectionSet)
+			result[field.Alias] = g.introspectTypeSlice(schemaType.PossibleTypes(), field.SelectionSet, variables)
 		case introspectEnumValues:
-			result[field.Alias] = g.introspectEnumValueSlice(schemaType.EnumValues(includeDeprecated), field.SelectionSet)
+			result[field.Alias] = g.introspectEnumValueSlice(schemaType.EnumValues(includeDeprecated), field.SelectionSet, variables)
 		case introspectInputFields:
-			result[field.Alias] = g.introspectInputValueSlice(schemaType.InputFields(), field.SelectionSet)
+			result[field.Alias] = g.introspectInputValueSlice(schemaType.InputFields(), field.SelectionSet, variables)
 		case introspectOfType:
-			result[field.Alias] = g.introspectType(schemaType.OfType(), field.SelectionSet)
+			result[field.Alias] = g.introspectType(schemaType.OfType(), field.SelectionSet, variables)
 		case "specifiedByURL":
 			// only named types can carry @specifiedBy
 			if schemaType.Name() != nil {
@@ -231,7 +236,7 @@ func (g *Gateway) introspectType(schemaType *introspection.Type, selectionSet as
 	return result
 }
 
-func (g *Gateway) introspectField(fieldDef introspection.Field, selectionSet ast.SelectionSet) map[string]interface{} {
+func (g *Gateway) introspectField(fieldDef introspection.Field, selectionSet ast.SelectionSet, variables map[string]interface{}) map[string]interface{} {
 	// a place to store the result
 	result := map[string]interface{}{}
 
@@ -244,9 +249,9 @@ func (g *Gateway) introspectField(fieldDef introspection.Field, selectionSet ast
 		case introspectDescription:
 			result[field.Alias] = fieldDef.Description()
 		case introspectArgs:
-			result[field.Alias] = g.introspectInputValueSlice(fieldDef.Args, field.SelectionSet)
+			result[field.Alias] = g.introspectInputValueSlice(fieldDef.Args, field.SelectionSet, variables)
 		case introspectType:
-			result[field.Alias] = g.introspectType(fieldDef.Type, field.SelectionSet)
+			result[field.Alias] = g.introspectType(fieldDef.Type, field.SelectionSet, variables)
 		case introspectIsDeprecated:
 			result[field.Alias] = fieldDef.IsDeprecated()
 		case introspectDeprecationReason:
@@ -256,7 +261,7 @@ func (g *Gateway) introspectField(fieldDef introspection.Field, selectionSet ast
 	return result
 }
 
-func (g *Gateway) introspectEnumValue(definition *introspection.EnumValue, selectionSet ast.SelectionSet) map[string]interface{} {
+func (g *Gateway) introspectEnumValue(definition *introspection.EnumValue, selectionSet ast.SelectionSet, variables map[string]interface{}) map[string]interface{} {
 	// a place to store the result
 	result := map[string]interface{}{}
 
@@ -278,7 +283,7 @@ func (g *Gateway) introspectEnumValue(definition *introspection.EnumValue, selec
 	return result
 }
 
-func (g *Gateway) introspectDirective(directive introspection.Directive, selectionSet ast.SelectionSet) map[string]interface{} {
+func (g *Gateway) introspectDirective(directive introspection.Directive, selectionSet ast.SelectionSet, variables map[string]interface{}) map[string]interface{} {
 	// a place to store the result
 	result := map[string]interface{}{}
 
@@ -291,7 +296,7 @@ func (g *Gateway) introspectDirective(directive introspection.Directive, selecti
 		case introspectDescription:
 			result[field.Alias] = directive.Description()
 		case introspectArgs:
-			result[field.Alias] = g.introspectInputValueSlice(directive.Args, field.SelectionSet)
+			result[field.Alias] = g.introspectInputValueSlice(directive.Args, field.SelectionSet, variables)
 		case "locations":
 			result[field.Alias] = directive.Locations
 		case "isRepeatable":
@@ -301,7 +306,7 @@ func (g *Gateway) introspectDirective(directive introspection.Directive, selecti
 	return result
 }
 
-func (g *Gateway) introspectInputValue(iv *introspection.InputValue, selectionSet ast.SelectionSet) map[string]interface{} {
+func (g *Gateway) introspectInputValue(iv *introspection.InputValue, selectionSet ast.SelectionSet, variables map[string]interface{}) map[string]interface{} {
 	// a place to store the result
 	result := map[string]interface{}{}
 
@@ -314,7 +319,7 @@ func (g *Gateway) introspectInputValue(iv *introspection.InputValue, selectionSe
 		case introspectDescription:
 			result[field.Alias] = iv.Description()
 		case "type":
-			result[field.Alias] = g.introspectType(iv.Type, field.SelectionSet)
+			result[field.Alias] = g.introspectType(iv.Type, field.SelectionSet, variables)
 		case "defaultValue":
 			result[field.Alias] = iv.DefaultValue
 		}
@@ -323,59 +328,59 @@ func (g *Gateway) introspectInputValue(iv *introspection.InputValue, selectionSe
 	return result
 }
 
-func (g *Gateway) introspectInputValueSlice(values []introspection.InputValue, selectionSet ast.SelectionSet) []map[string]interface{} {
+func (g *Gateway) introspectInputValueSlice(values []introspection.InputValue, selectionSet ast.SelectionSet, variables map[string]interface{}) []map[string]interface{} {
 	result := []map[string]interface{}{}
 
 	// each type in the schema
 	for _, field := range values {
 		field := field // use loop-local address
-		result = append(result, g.introspectInputValue(&field, selectionSet))
+		result = append(result, g.introspectInputValue(&field, selectionSet, variables))
 	}
 
 	return result
 }
 
-func (g *Gateway) introspectFieldSlice(fields []introspection.Field, selectionSet ast.SelectionSet) []map[string]interface{} {
+func (g *Gateway) introspectFieldSlice(fields []introspection.Field, selectionSet ast.SelectionSet, variables map[string]interface{}) []map[string]interface{} {
 	result := []map[string]interface{}{}
 
 	// each type in the schema
 	for _, field := range fields {
-		result = append(result, g.introspectField(field, selectionSet))
+		result = append(result, g.introspectField(field, selectionSet, variables))
 	}
 
 	return result
 }
 
-func (g *Gateway) introspectEnumValueSlice(values []introspection.EnumValue, selectionSet ast.SelectionSet) []map[string]interface{} {
+func (g *Gateway) introspectEnumValueSlice(values []introspection.EnumValue, selectionSet ast.SelectionSet, variables map[string]interface{}) []map[string]interface{} {
 	result := []map[string]interface{}{}
 
 	// each type in the schema
 	for _, enumValue := range values {
 		enumValue := enumValue // use loop-local address
-		result = append(result, g.introspectEnumValue(&enumValue, selectionSet))
+		result = append(result, g.introspectEnumValue(&enumValue, selectionSet, variables))
 	}
 
 	return result
 }
 
-func (g *Gateway) introspectTypeSlice(types []introspection.Type, selectionSet ast.SelectionSet) []map[string]interface{} {
+func (g *Gateway) introspectTypeSlice(types []introspection.Type, selectionSet ast.SelectionSet, variables map[string]interface{}) []map[string]interface{} {
 	result := []map[string]interface{}{}
 
 	// each type in the schema
 	for _, field := range types {
 		field := field // use loop-local address
-		result = append(result, g.introspectType(&field, selectionSet))
+		result = append(result, g.introspectType(&field, selectionSet, variables))
 	}
 
 	return result
 }
 
-func (g *Gateway) introspectDirectiveSlice(directives []introspection.Directive, selectionSet ast.SelectionSet) []map[string]interface{} {
+func (g *Gateway) introspectDirectiveSlice(directives []introspection.Directive, selectionSet ast.SelectionSet, variables map[string]interface{}) []map[string]interface{} {
 	result := []map[string]interface{}{}
 
 	// each type in the schema
 	for _, directive := range directives {
-		result = append(result, g.introspectDirective(directive, selectionSet))
+		result = append(result, g.introspectDirective(directive, selectionSet, variables))
 	}
 
 	return result
